@@ -615,9 +615,29 @@ def judge(prog, obs):
         else:
             b = v
         if b is not None and b[0] in RUNTIME_STAGES:
+            # an inlined legacy model is a mix of versions by itself: if the single-module program runs and
+            # agrees once its inlined models are taken out (and each of them runs alone — that is the
+            # reference), the runtime supports everything and the failure is the inlined models' handling
+            base2 = drop_inlines(base)
+            if base2 is not None:
+                b2 = judge1(base2, observe(base2))
+                if b2 is None:
+                    return v
             UNSUPPORTED.append((v[0], v[1][:120]))
             return None
     return v
+
+
+def drop_inlines(prog):
+    """The program with every inlined model replaced by a plain operator (None if it has none)."""
+    p = copy.deepcopy(prog)
+    n = 0
+    for st, *_ in L.walk(p["nodes"]):
+        if st["op"] == "inline":
+            n += 1
+            st.pop("model")
+            st.update(op="neg", mv=17)
+    return p if n else None
 
 
 def judge1(prog, obs):
@@ -1001,7 +1021,7 @@ def targeted_programs():
     P.append({"nodes": [inl("a", "x", "pad_attr", 10)], "outs": ["a"]})
     P.append({"nodes": [inl("a", "x", "pad_attr", 10, ml=["afe", 1]), st("b", "rmin", 18, ["a"], axis=1)], "outs": ["b"]})
     P.append({"nodes": [inl("a", "x", "topk_attr", 9, custom=1), st("b", "identity", 21, ["a"])], "outs": ["b"]})
-    for k, (body, opset) in enumerate((("softmax3", 11), ("logsoftmax3", 12), ("unsq_sq_relu", 9), ("rsum_attr", 12),
+    for k, (body, opset) in enumerate((("softmax3", 11), ("logsoftmax3", 12), ("softmax3_reshape", 11), ("logsoftmax3_reshape", 9), ("unsq_sq_relu", 9), ("rsum_attr", 12),
                                        ("rmean_attr", 13), ("rmax_attr", 17), ("split_attr", 11), ("clip_attr", 10),
                                        ("dropout_ratio", 11))):
         mlk, mlv = (("scaler", 1), ("le2", 2), ("norm", 3), ("afe", 2), ("binarizer", 1))[k % 5]
